@@ -14,7 +14,7 @@ def Kind.bad : Kind → Bool
 mutual
 /-- all leaves are testtools' own results (`TestResult`, `TextTestResult`) -/
 def ownLeaves : Shape → Bool
-  | .tt _ | .text _ => true
+  | .tt _ | .text _ | .sff => true
   | .sink _ | .fsink _ _ _ | .tbt => false
   | .etod c | .deco c | .tagger _ _ c | .tfr c | .e2s c => ownLeaves c
   | .multi cs => ownLeavesL cs
@@ -40,7 +40,7 @@ Twisted — with or without a `failfast` attribute assigned on them), which only
 `ExtendedToOriginalDecorator` that supplies what they lack (`Shape.wf`).  (An extended-protocol foreign result, which
 may be reported to without an adapter, decides by itself what `failfast` means to it: not ours.) -/
 def adaptLeaves : Shape → Bool
-  | .tt _ | .text _ | .fsink _ _ _ => true
+  | .tt _ | .text _ | .fsink _ _ _ | .sff => true
   | .sink f => f != .ext
   | .tbt => false
   | .etod c | .deco c | .tagger _ _ c | .tfr c | .e2s c => adaptLeaves c
@@ -110,6 +110,7 @@ def leafParams : Shape → List Bool
   | .tt ff | .text ff => [ff]
   | .sink _ | .tbt => [false]
   | .fsink _ b _ => [b]
+  | .sff => []
   | .etod c | .deco c | .tagger _ _ c | .tfr c | .e2s c => leafParams c
   | .multi cs => leafParamsL cs
 def leafParamsL : List Shape → List Bool
@@ -213,6 +214,7 @@ which reaches everything below it, on a bad outcome) -/
 mutual
 def guards : Bool → Shape → List Bool
   | g, .tt _ | g, .text _ | g, .sink _ | g, .fsink _ _ _ | g, .tbt => [g]
+  | _, .sff => []
   | g, .etod c => guards (g || ffRead (.etod c)) c
   | g, .deco c | g, .tagger _ _ c | g, .tfr c | g, .e2s c => guards g c
   | g, .multi cs => guardsL g cs
@@ -286,10 +288,26 @@ def cExit (i : Input) (t : Trace) : Bool :=
       code == (if ks.any Kind.bad then 1 else 0) && out == .running :: (tallyOf {} 0 (dispatched ff ks)).summary
   | _, _ => false
 
+/-! ### a `StreamFailFast` as the stream target of the decorator -/
+/-- `ExtendedToStreamDecorator(StreamFailFast(callback))` reported to directly: the inner `StreamFailFast` calls *its*
+callback once per error / failure / unexpected success — whatever the decorator's own `failfast` is (which this target
+neither sets nor is: `failfast-read`, `failfast-stops` apply to the decorator as over any other stream target) -/
+def cbCount : Nat → List Call → List Obs → Bool
+  | _, [], [] => true
+  | n, c :: h, o :: os =>
+    let n' := if isBadAdd c then n + 1 else n
+    o.cb == [n'] && cbCount n' h os
+  | _, _, _ => false
+
+def cCallback (i : Input) (t : Trace) : Bool :=
+  match i.shape with
+  | .sff => cbCount 0 i.hist t.obs
+  | _ => true
+
 def clauses : List (String × (Input → Trace → Bool)) :=
   [("verdict", cVerdict), ("text-summary", cText), ("failfast-kept", cFailfastKept),
    ("failfast-stops", cFailfastStops), ("stop-sticky", cSticky), ("not-earlier", cNotEarlier),
-   ("stop-reaches", cStopReaches), ("stop-sets", cStopSets), ("failfast-read", cFailfastRead), ("leaf-failfast-kept", cLeafKept), ("leaf-stops", cLeafStops),
+   ("stop-reaches", cStopReaches), ("stop-sets", cStopSets), ("failfast-read", cFailfastRead), ("leaf-failfast-kept", cLeafKept), ("leaf-stops", cLeafStops), ("stream-failfast-callback", cCallback),
    ("exit-status", cExit)]
 
 def holds (i : Input) (t : Trace) : Bool := clauses.all fun c => c.2 i t
